@@ -401,6 +401,14 @@ Definition resolve_root (live keys : list key) (sigs : list sig) : resolved :=
        | RVReject => RBogus
        end.
 
+(* The other validating queries.  Every CD=0 lookup passes one of three gates before anything in the response is
+   looked at: answer() (positive answers, above), authority() (NXDOMAIN / NODATA) and validateDelegation()
+   (referrals), each "if r.dnssec && !r.hasTrustAnchors() { return nil, ErrTrustAnchorsUnavailable }" with
+   hasTrustAnchors = len(rootKeys) > 0.  [gate live = Some RUnavailable]: the query is refused whatever the
+   authority said; [None]: validation proper goes on (not this property's subject). *)
+Definition has_trust_anchors (live : list key) : bool := negb (is_nil live).
+Definition gate (live : list key) : option resolved := if has_trust_anchors live then None else Some RUnavailable.
+
 (* ------------------------------------------------- the system across runs *)
 Record sys := mk_sys { s_live : list key; s_cfg : list key; s_disk : disk }.
 
